@@ -61,6 +61,8 @@ def build_kernel(spec, d, batch=()):
         return K.Matern52KernelGrad(**common)
     if k == "multitask":
         return K.MultitaskKernel(K.RBFKernel(batch_shape=bs), num_tasks=spec.get("tasks", 2), rank=spec.get("rank", 1), batch_shape=bs)
+    if k == "index":
+        return K.IndexKernel(num_tasks=spec.get("tasks", 3), rank=spec.get("rank", 1), batch_shape=bs, active_dims=tuple(ad) if ad is not None else None)
     if k == "constant":
         return K.ConstantKernel(batch_shape=bs)
     if k == "scale":
